@@ -5,7 +5,10 @@ R1  sum over sources (T-AGREE): sum_total_emissions ranges over the whole
     result) receives exactly one `+=` per source parameter, reduced the way
     that source's declared value shape demands (array: np.sum / sum / .sum();
     per-mode values: .sum() or a sum over .values() / .as_array(); scalar:
-    itself; float() looked through); the APU/GSE
+    itself; float() looked through), under its own membership test
+    `species in <source>` and nothing else (a condition on another source, an
+    earlier `continue`, … would leave a species the source has out of the
+    total; APU/GSE additionally under their switch); the APU/GSE
     switches are the ones that gate their computation; the call passes each
     component's `.emissions` to the parameter of the same name; the only write
     to the totals afterwards is `[Species.CO2] += x` with the same x stored as
@@ -18,7 +21,10 @@ R3  amount = EI × component fuel (T-PAIR + def-use): per producer, the index
     map, the amount map and the reported fuel are read off the EmissionsSubset
     it returns (whatever the locals are called), and the variable that
     multiplies the indices must be the one whose value (APU) or sum (LTO; over
-    the counted slice for the trajectory) is reported as fuel_burn.  Every place
+    the counted slice for the trajectory) is reported as fuel_burn (the same
+    local, or an expression that stands for the same value; a reported fuel
+    that is something else - a rate, another attribute - is a violation, not
+    an unknown).  Every place
     that fills the emissions map under a variable key stores a product whose
     factors are the index map's element at that key and the component fuel F,
     for a key that walks the index map's own keys with nothing (guard, filter,
@@ -59,7 +65,9 @@ R5  speciation identities (T-ALG): for every member of ThrustMode the NO, NO2
     number); the constant shares of GSE NOx given to NO, NO2 and
     HONO (written out per species, or rows of a constant table walked by a
     loop; literals or named constants) sum to exactly 1; APU takes its three
-    fractions at one thrust mode; SOx = SO2 + SO4 wherever both are set; in
+    fractions at one thrust mode; SOx = SO2 + SO4 wherever both are set (a sum
+    of two terms, each the element kept under SO2 / SO4 or the very value
+    stored there - one local, or one call-free expression, used for both); in
     lto.py, wherever the NOx family is written (helper or producer), NO, NO2
     and HONO are the one stored NOx index times their own fraction of a
     NOx_speciation() result; BFFM2's NO / NO2 / HONO results are its returned
@@ -107,12 +115,29 @@ def rule_sum(ctx):
     lp = loops[0]
     kv = lp.target.id
     # the accumulator is whatever is stored as the species' result
-    res = [s for t, s, how in stores_to(st.node) if isinstance(t, ast.Subscript) and norm(t.slice) == kv and how == 'assign'
-           and any(x is lp for x in ancestors(s))]
-    acc = res[0].value.id if len(res) == 1 and isinstance(res[0].value, ast.Name) else None
+    res_all = [s for t, s, how in stores_to(st.node) if isinstance(t, ast.Subscript) and norm(t.slice) == kv and how == 'assign'
+               and any(x is lp for x in ancestors(s))]
+    res = [s for s in res_all if isinstance(s.value, ast.Name)]
+    # a species whose result is set to something else than the accumulated sum: fine only where no source can have it
+    for s in res_all:
+        if s in res:
+            continue
+        atoms = _loop_facts(s, lp)
+        absent = all(any(not pol and _is_membership(t, kv, p) for t, pol in atoms)
+                     or (p in ('apu', 'gse') and any(not pol and norm(t) == f'config.emissions.{p}_enabled' for t, pol in atoms))
+                     for p in st.params)
+        ok = absent and const_value(s.value) == 0 and not isinstance(const_value(s.value), bool)
+        ctx.ob('C01-R1', st, norm(s)[:60], ok, 'no source has the species on this path, and the total is zero' if ok else
+               (f'for the species that reach this line the total is set to `{norm(s.value)[:30]}` instead of the sum of the sources: the APU and '
+                f'GSE parts (and any other source that has the species) still report their amounts, so the total no longer equals the '
+                'sum of the parts'), line=s.lineno)
+    acc = res[0].value.id if len({s.value.id for s in res}) == 1 else None
     if acc is None:
         ctx.undecided('C01-R1', st, f'<result>[{kv}] = <accumulator>', 'cannot tell which local accumulates the species total')
-    adds = [n for n in ast.walk(lp) if isinstance(n, ast.AugAssign) and norm(n.target) == acc]
+    # terms are added to the accumulator - or, once it has been stored, to the species' element of the result itself
+    res_elem = {norm(t) for s_ in res for t in s_.targets if isinstance(t, ast.Subscript)}
+    adds = [n for n in ast.walk(lp) if isinstance(n, ast.AugAssign) and (norm(n.target) == acc or (
+        norm(n.target) in res_elem and res and n.lineno > res[0].lineno))]
     params = st.params
     seen = {}
     for a in adds:
@@ -163,10 +188,19 @@ def rule_sum(ctx):
             ctx.ob('C01-R1', st, f'{p} reduced by `{norm(a[0].value)}`', okr, f'{red} of a per-species {shape} value' if okr
                    else f'a per-species {shape} value must enter as {sorted(allowed.get(shape, ()))}, not as `{norm(a[0].value)[:50]}`',
                    line=a[0].lineno, nontrivial=False)
-            gs = [(norm(t), pol) for t, pol, _ in guards_of(a[0], stop=lp)]
-            memb = (f'{kv} in {p}', True) in gs or any(f'{kv} in {p}' in t and pol for t, pol in gs)
-            ctx.ob('C01-R1', st, f'{p} read only when it has the species', memb, f'`{kv} in {p}`' if memb else
+            atoms = _loop_facts(a[0], lp)
+            own = [t for t, pol in atoms if pol and _is_membership(t, kv, p)]
+            memb = bool(own)
+            ctx.ob('C01-R1', st, f'{p} read only when it has the species', memb, f'`{norm(own[0])}`' if memb else
                    f'{p}[{kv}] is read without a membership test', line=a[0].lineno, nontrivial=False)
+            # … and whenever it has it: a condition on anything else (another source's membership, an earlier
+            # `continue`) makes the total miss this source's amount for some species
+            foreign = [(t, pol) for t, pol in atoms if not _is_membership(t, kv, p)
+                       and not (pol and p in ('apu', 'gse') and 'config.emissions' in norm(t))]
+            ctx.ob('C01-R1', st, f'{p} added for every species it has', not foreign,
+                   'nothing but its own membership test (and its switch) decides' if not foreign else
+                   f'`{norm(a[0])}` also depends on `{"" if foreign[0][1] else "not "}{norm(foreign[0][0])[:60]}`: a species that `{p}` '
+                   'has is left out of the total when that condition fails - total ≠ sum of the parts', line=a[0].lineno)
     ctx.floor('C01-R1', len([p for p in params if p in seen]), 4, 'sources summed')
     extra = [a for s, al in seen.items() if s is None for a in al]
     for a in extra:
@@ -181,8 +215,7 @@ def rule_sum(ctx):
     # switches
     for comp in ('apu', 'gse'):
         a = seen.get(comp, [])
-        sg = {norm(t) for x in a for t, pol, _ in guards_of(x, stop=lp) if pol and 'config.emissions' in norm(t)}
-        sg = {c for g in sg for c in g.split(' and ') if 'config.emissions' in c}
+        sg = {norm(t) for x in a for t, pol in _loop_facts(x, lp) if pol and 'config.emissions' in norm(t)}
         cc = [c for c in calls_in(ce.node) if call_name(c).lower() == f'get_{comp}_emissions']
         cg = set()
         if cc:
@@ -232,6 +265,46 @@ def rule_sum(ctx):
            'totals are modified after the sum other than by the reported life-cycle CO2 adjustment',
            line=(post[0].lineno if post else ce.node.lineno))
     return seen, call
+
+
+def _is_membership(t, kv, p):
+    """t tests that the species `kv` is a key of source `p`: `kv in p`, `kv in p.keys()`"""
+    if not (isinstance(t, ast.Compare) and len(t.ops) == 1 and isinstance(t.ops[0], ast.In) and norm(t.left) == kv):
+        return False
+    r = t.comparators[0]
+    if isinstance(r, ast.Call) and isinstance(r.func, ast.Attribute) and r.func.attr == 'keys' and not r.args:
+        r = r.func.value
+    return norm(r) == p
+
+
+def _loop_facts(node, lp):
+    """[(test, polarity)] the statement `node` of loop lp depends on within one iteration: enclosing ifs /
+    conditional expressions, and earlier `if c: continue / break` of its enclosing blocks (as `not c`); negative
+    comparisons read as their positive twin"""
+    from ..astutil import conjuncts, last_stmt
+    fs = [(t, pol) for t, pol, _ in guards_of(node, stop=lp)]
+    child = node
+    for a in ancestors(node):
+        for f in ('body', 'orelse'):
+            bl = getattr(a, f, None)
+            if isinstance(bl, list) and any(child is x for x in bl):
+                for x in bl:
+                    if x is child:
+                        break
+                    if isinstance(x, ast.If) and isinstance(last_stmt(x.body), (ast.Continue, ast.Break, ast.Return, ast.Raise)):
+                        fs.append((x.test, False))
+                    elif isinstance(x, ast.If) and x.orelse and isinstance(last_stmt(x.orelse), (ast.Continue, ast.Break, ast.Return, ast.Raise)):
+                        fs.append((x.test, True))
+        if a is lp:
+            break
+        child = a
+    out = []
+    for t, pol in fs:
+        for x, p_ in conjuncts(t, pol):
+            if isinstance(x, ast.Compare) and len(x.ops) == 1 and isinstance(x.ops[0], ast.NotIn):
+                x, p_ = ast.copy_location(ast.Compare(left=x.left, ops=[ast.In()], comparators=x.comparators), x), not p_
+            out.append((x, p_))
+    return out
 
 
 def rule_fuel(ctx):
@@ -597,7 +670,24 @@ def _fuel_source(fn, e):
             return (names[-1].id, 'sum', sl) if names else None
         if isinstance(x, ast.Name):
             last = x.id
+    if last is None and e is not None:
+        # not a local at all (an attribute, a product written out, …): the value is known by its text only
+        return (f'<{norm(e)}>', 'scalar', None)
     return (last, 'scalar', None) if last else None
+
+
+def _same_value(fn, a, b):
+    """do expressions a and b denote the same value?  Yes when what they stand for - through single-definition locals,
+    float() looked through - meets in one text (`x` and `y = x`; `f * t` written out and `burn = f * t`)"""
+    def texts(e):
+        out = set()
+        for x in _stands_for(fn, e):
+            while isinstance(x, ast.Call) and call_name(x) == 'float' and len(x.args) == 1 and not x.keywords:
+                x = x.args[0]
+                out |= {norm(y) for y in _stands_for(fn, x)}
+            out.add(norm(x))
+        return out
+    return bool(texts(a) & texts(b))
 
 
 def _seq_elts(prog, fi, e):
@@ -748,8 +838,10 @@ def rule_amounts(ctx):
     af = prog.func(APU, 'get_APU_emissions')
     a_idx, a_em, (a_fuel, a_how, a_slice), a_mult = _producer_names(ctx, af)
     _producer(ctx, af, a_em, a_idx, a_mult, None)
-    ok = a_how == 'scalar' and a_fuel == a_mult
-    ctx.ob('C01-R3', af, 'APU returns indices, amounts and the same fuel', ok, a_fuel if ok else 'reported APU fuel differs from the multiplier')
+    ok = a_how == 'scalar' and (a_fuel == a_mult or _same_value(af.node, _subset_fields(prog, af)['fuel_burn'], ast.Name(id=a_mult, ctx=ast.Load())))
+    ctx.ob('C01-R3', af, 'APU returns indices, amounts and the same fuel', ok, a_fuel if ok else
+           f'the APU reports `{norm(_subset_fields(prog, af)["fuel_burn"])[:50]}` as its fuel burn, but its amounts are the indices times `{a_mult}`: '
+           'amount ≠ EI × reported fuel, and total fuel burn does not contain the fuel the APU amounts stand for')
     fb = single_def_value(af.node, a_mult)
     ok = fb is not None and norm(fb) in ('apu.fuel_kg_per_s * apu_time', 'apu_time * apu.fuel_kg_per_s')
     ctx.ob('C01-R3', af, 'APU fuel = fuel flow × time', ok, norm(fb) if ok else 'APU fuel changed', nontrivial=False)
@@ -1167,6 +1259,32 @@ def _per_mode(e, modes):
     return None
 
 
+def _sum_terms(fn, e):
+    """the summands of e when it is a sum: `a + b`, sum((a, b)) / math.fsum([a, b]) / np.add(a, b) - through
+    single-definition locals; None when it is not a sum"""
+    for x in _stands_for(fn, e):
+        if isinstance(x, ast.BinOp) and isinstance(x.op, ast.Add):
+            out = []
+            for side in (x.left, x.right):
+                sub = _sum_terms(fn, side) if isinstance(side, ast.BinOp) and isinstance(side.op, ast.Add) else None
+                out += sub if sub else [side]
+            return out
+        if isinstance(x, ast.Call) and call_name(x) in ('sum', 'math.fsum', 'fsum') and len(x.args) == 1 and not x.keywords \
+                and isinstance(x.args[0], (ast.Tuple, ast.List)):
+            return list(x.args[0].elts)
+        if isinstance(x, ast.Call) and call_name(x) in ('np.add', 'numpy.add') and len(x.args) == 2 and not x.keywords:
+            return list(x.args)
+        if isinstance(x, ast.BinOp):
+            return None
+    return None
+
+
+def _amounts_map(ctx, fi, default):
+    """name of the amount map a producer without index map returns (`EmissionsSubset(emissions=<map>, …)`)"""
+    f = _subset_fields(ctx.prog, fi)
+    return f['emissions'].id if f and isinstance(f.get('emissions'), ast.Name) else default
+
+
 def rule_speciation(ctx):
     prog = ctx.prog
     nm = prog.module('emissions/ei/nox.py')
@@ -1217,11 +1335,27 @@ def rule_speciation(ctx):
                f'GSE {sp_} is not a fixed share of GSE NOx', nontrivial=False)
     ok = n == 3 and tot == 1
     ctx.ob('C01-R5', gf, f'GSE NOx shares sum to {tot}', ok, 'exactly one' if ok else 'GSE NO + NO2 + HONO ≠ GSE NOx')
-    for fn_, mp in ((gf, 'gse'), (prog.func(APU, 'get_APU_emissions'), 'indices')):
-        s = [st for t, st, how in stores_to(fn_.node) if norm(t) == f'{mp}[Species.SOx]']
-        ok = len(s) == 1 and {norm(s[0].value.left), norm(s[0].value.right)} == {f'{mp}[Species.SO2]', f'{mp}[Species.SO4]'} \
-            and isinstance(s[0].value.op, ast.Add)
-        ctx.ob('C01-R5', fn_, f'{mp}[SOx] = SO2 + SO4', ok, norm(s[0].value) if ok else 'SOx is not the sum of SO2 and SO4')
+    for fn_, mp in ((gf, _amounts_map(ctx, gf, 'gse')), (prog.func(APU, 'get_APU_emissions'), _producer_names(ctx, prog.func(APU, 'get_APU_emissions'), record=False)[0])):
+        kv_ = _keyed_values(prog, fn_, mp)
+        s = kv_.get('SOx', [])
+        ok, shown = False, None
+        if len(s) == 1 and s[0][0] is not None:
+            shown = norm(s[0][0])
+            terms = _sum_terms(fn_.node, s[0][0])
+            # each of the two summands is the value kept under SO2 / SO4: a read of that element, or the very value
+            # that was stored there (a local both the store and the sum use)
+            def is_value_of(term, k):
+                if any(norm(x) == f'{mp}[Species.{k}]' for x in _stands_for(fn_.node, term)):
+                    return True
+                vs = kv_.get(k, [])
+                if len(vs) != 1 or vs[0][0] is None or not _same_value(fn_.node, term, vs[0][0]):
+                    return False
+                # one local used for both, or one call-free expression written twice (it reads the same things)
+                return (isinstance(term, ast.Name) and isinstance(vs[0][0], ast.Name)) or not any(isinstance(y, ast.Call) for y in ast.walk(term))
+            ok = terms is not None and len(terms) == 2 and any(
+                is_value_of(a_, 'SO2') and is_value_of(b_, 'SO4') for a_, b_ in (terms, terms[::-1]))
+        ctx.ob('C01-R5', fn_, f'{mp}[SOx] = SO2 + SO4', ok, shown if ok else
+               f'SOx is not the sum of SO2 and SO4 (it receives `{shown}`)', line=(s[0][1].lineno if s else fn_.node.lineno))
     def speciated(fi_, v, frac):
         """(text of the other factor, text of the thrust mode or None) when v is <something> × <NOx_speciation()
         result>.<frac> or <something> × <NOx_speciation() result>.<frac>[mode] (factors in either order, through
